@@ -1,6 +1,8 @@
 mod backtrack;
 pub mod codegen;
 pub mod simplify;
+#[cfg(feature = "verif_hooks")]
+pub mod verif_dump;
 
 #[cfg(test)]
 pub mod simulate;
